@@ -9,10 +9,10 @@
 
   The code is mirrored *as it is*:
     * `Delta` rows follow the order of the capacitor dictionary;
-    * `Q = diag(Qi, 1)` has its columns in BLOCK order (current sources | voltage sources),
-      but `QS`/`QL` are selected with the positions of the COMBINED alphabetic source map
-      (`default_source_mapper`), and in the alphabetic order of that map — not in the order of
-      `sources`, and not in the order of the inductor dictionary;
+    * `Q = diag(Qi, 1)` has its columns in BLOCK order (current sources | voltage sources);
+      since fix 3361ab5 `QS`/`QL` are selected by block position: `QS` in the order of `sources`,
+      `QL` in the order of the inductor dictionary (before the fix: positions of the combined
+      alphabetic source map — wrong columns for interleaved names / non-alphabetic inductors);
     * `Λ = diag(−C…, L…)` follows the dictionaries;
     * `_row_for_potential` returns a zero row for an unknown node id.
   The two `numpy.linalg.inv` calls are *arguments* (certificates `Ainv`, `S`); the theorems
@@ -124,14 +124,19 @@ def ssQ (N : Net L K) : List (List K) :=
   ++ ((List.range N.nV).map fun i =>
         List.replicate N.nC 0 ++ ((List.range N.nV).map fun k => if k = i then (1 : K) else 0))
 
-/-- `[source_mapping_all[l] for l in source_mapping_all if l not in l_values]` (line 29):
-positions in the COMBINED alphabetic map, in the order of that map -/
+/-- columns of `QS` (line 31, after fix 3361ab5): the current sources in the order of the
+current-source map, then the ideal voltage sources that are not keys of `l_values` in the order
+of the voltage-source map, each addressed by its BLOCK position in `Q` -/
 def ssColsS (N : Net L K) (lvals : ValDict K) : List Nat :=
-  (N.srcIds.filter fun l => !lvals.has l).filterMap fun l => idxOf? l N.srcIds
+  (N.csIds.filterMap fun l => idxOf? l N.csIds)
+  ++ ((N.vsIds.filter fun l => !lvals.has l).filterMap fun l => (idxOf? l N.vsIds).map (N.nC + ·))
 
-/-- line 30: the same for the ids that are keys of `l_values` -/
+/-- columns of `QL` (line 32): `n_cs + voltage_source_mapping[l]` for the keys of `l_values`,
+in the order of the DICTIONARY (the order of `Λ`).  A key that is not an ideal voltage source
+of the network is a `KeyError` in the code; here it yields no column and
+`stateSpaceMatrices` raises. -/
 def ssColsL (N : Net L K) (lvals : ValDict K) : List Nat :=
-  (N.srcIds.filter fun l => lvals.has l).filterMap fun l => idxOf? l N.srcIds
+  lvals.keys.filterMap fun l => (idxOf? l N.vsIds).map (N.nC + ·)
 
 /-- diagonal of `Λ` (lines 32-36) -/
 def ssLambda (cvals lvals : ValDict K) : List K := cvals.vals.map (fun c => -c) ++ lvals.vals
@@ -175,12 +180,12 @@ def ssCore (ny ns nu : Nat) (invLam : List K) (DQ QS Ainv S : List (List K)) : S
   ⟨A, B, C, D⟩
 
 /-- `state_space_matrices(network, c_values, l_values)` with the inverses `Ainv`
-(of `A_tilde`) and `S` (of `DQᵀ Ainv DQ`) supplied.  A shape mismatch between `Λ` and the
-selected inductor columns is numpy's `ValueError`. -/
+(of `A_tilde`) and `S` (of `DQᵀ Ainv DQ`) supplied.  An `l_values` key that is not an ideal
+voltage source of the network is a `KeyError` (`voltage_source_mapping_all[l]`). -/
 def stateSpaceMatrices (N : Net L K) (cvals lvals : ValDict K)
     (Ainv S : List (List K)) : Except Err (SSMats K) := do
   let Delta ← ssDelta N cvals
-  if (ssColsL N lvals).length ≠ lvals.length then throw .valueError
+  if (ssColsL N lvals).length ≠ lvals.length then throw .keyError
   pure (ssCore N.nY (ssNStates N cvals lvals) (ssNInputs N lvals) (ssInvLambda cvals lvals)
     (ssDQ N cvals lvals Delta) (ssQS N lvals) Ainv S)
 
